@@ -113,9 +113,11 @@ def eccentricity_derivative(
 
     dR_dw_1 = -1. * beta_invr * mass_2 * dU_dw_1
 
-    # Correct for zero eccentricity
+    # Correct for zero eccentricity. The mask can not undo a division by zero (0 * (x / 0) is NaN and raises for
+    #    scalars), so divide by a denominator that is replaced by 1 wherever the mask switches the term off.
+    safe_denom = denom + (np.abs(denom) <= float_eps) * 1.
     de_dt = (np.abs(denom) <= float_eps) * 0. + \
-            (np.abs(denom) > float_eps) * (e_term1 / denom) * (e_term1 * dR_dM - dR_dw_1)
+            (np.abs(denom) > float_eps) * (e_term1 / safe_denom) * (e_term1 * dR_dM - dR_dw_1)
 
     return de_dt
 
@@ -167,8 +169,10 @@ def semia_eccen_derivatives(
     e_term1 = np.sqrt(1. - eccentricity * eccentricity)
     denom = orbital_motion * semi_major_axis * semi_major_axis * eccentricity
 
-    # Correct for zero eccentricity
+    # Correct for zero eccentricity. The mask can not undo a division by zero (0 * (x / 0) is NaN and raises for
+    #    scalars), so divide by a denominator that is replaced by 1 wherever the mask switches the term off.
+    safe_denom = denom + (np.abs(denom) <= float_eps) * 1.
     de_dt = (np.abs(denom) <= float_eps) * 0. + \
-            (np.abs(denom) > float_eps) * (e_term1 / denom) * (e_term1 * dR_dM - dR_dw_1)
+            (np.abs(denom) > float_eps) * (e_term1 / safe_denom) * (e_term1 * dR_dM - dR_dw_1)
 
     return da_dt, de_dt
